@@ -59,7 +59,7 @@ def run(text, scratch, name, built=None, timeout=600, extra=(), multiple_errors=
         d.spans = [(s.get("line_start"), s.get("is_primary"), s.get("label")) for s in spans]
         prim = [s for s in spans if s.get("is_primary")] or spans
         d.line = prim[0]["line_start"] if prim else 0
-        if e.get("code") is not None or vr.get("encountered-vir-error") or _is_compile_msg(msg):
+        if e.get("code") is not None or _is_compile_msg(msg):
             d.kind = "compile"
         if built is not None:
             # label: prefer a labelled span (primary first); item: any span inside an extracted item
